@@ -50,6 +50,9 @@ CHECKS = {
  "C19": ("exploration", "exhaustive enumeration of path strings, relative-path pairs, file operation histories, mkdir arguments and directory trees against reference models on a real scratch file system",
          "every path of <= 4 (5) components over 8 names and both separators, all answerable getRelativePath pairs, every file operation history of <= 4 (5) steps over 24 operations, every Directory::create argument of <= 3 components, every tree of <= 4 (5) nodes with symlinks for recursive unlink",
          "the kernel's file system semantics are trusted; runs in a private scratch directory", "DESIGN.md §4 C19"),
+ "C20": ("exploration", "exhaustive enumeration of argument vectors against glibc getopt_long, and of command lines / launch configurations against an echoing helper child",
+         "every argument vector of <= 4 (5) strings over 19 option/value forms in exactly sized heap blocks, every command line of <= 3 words over 7 quoting forms through the real Process::open, the launch matrix (overloads x environments x stream combinations x payload sizes around the pipe capacity) and all 256 exit codes",
+         "glibc getopt_long (exact long names) is the reference; real vfork/exec in the sandbox", "DESIGN.md §4 C20"),
 }
 NOT_YET = "check not built yet in this snapshot (planned, see DESIGN.md §4)"
 
